@@ -355,3 +355,81 @@ theorem verify_ok_iff (gens : ℕ → List G × List G) (width : ℕ) (b : Bytes
   · simp [hl]
 
 end Zk.Props.C04
+
+namespace Zk.Props.C04
+open Zk Zk.Range
+variable {F G T : Type} [Field F] [AddCommGroup G] [Module F G] [DecidableEq G]
+  [PtCodec G] [ScCodec F] [PedGens G] [TranscriptOps T]
+
+/-! ## the challenges, unfolded -/
+
+theorem challenges_some (t : T) (nm : ℕ) (pf : Proof F G) (c : Challenges F) (h : challenges t nm pf = some c) :
+    let t := TranscriptOps.append t b!"dom-sep" b!"range-proof"
+    let t := appendU64 t b!"n" nm
+    let t := TranscriptOps.append t b!"A" pf.aB
+    let t := TranscriptOps.append t b!"S" pf.sB
+    let yt := challengeScalar (Sc := F) t b!"y"
+    let zt := challengeScalar (Sc := F) yt.2 b!"z"
+    let t := TranscriptOps.append zt.2 b!"T_1" pf.t1B
+    let t := TranscriptOps.append t b!"T_2" pf.t2B
+    let xt := challengeScalar (Sc := F) t b!"x"
+    let t := appendScalar xt.2 b!"t_x" pf.tx
+    let t := appendScalar t b!"t_x_blinding" pf.txBlinding
+    let t := appendScalar t b!"e_blinding" pf.eBlinding
+    let wt := challengeScalar (Sc := F) t b!"w"
+    let ct := challengeScalar (Sc := F) wt.2 b!"c"
+    ∃ uSq uInvSq s t' d, verificationScalars nm ct.2 pf.ipp = some (uSq, uInvSq, s, t') ∧
+      c = ⟨yt.1, zt.1, xt.1, wt.1, d, uSq, uInvSq, s⟩ := by
+  unfold challenges at h
+  simp only at h ⊢
+  split at h
+  · cases h
+  · rename_i uSq uInvSq s t' heq
+    exact ⟨uSq, uInvSq, s, t', _, heq, (Option.some.inj h).symm⟩
+
+theorem verificationScalars_some (n : ℕ) (t : T) (ipp : Ipp F G) (uSq uInvSq s : List F) (t' : T)
+    (h : verificationScalars n t ipp = some (uSq, uInvSq, s, t')) :
+    let us := (ippChallenges (Sc := F)
+      (appendU64 (TranscriptOps.append t b!"dom-sep" b!"inner-product") b!"n" n) ipp.lB ipp.rB).1
+    uSq = us.map (fun u => u * u) ∧ uInvSq = us.map (fun u => u⁻¹ * u⁻¹) ∧
+    s = sVector ((us.foldl (· * ·) 1)⁻¹) (us.map fun u => u * u) ∧
+    n = 2 ^ ipp.lB.length ∧ ipp.lB.length = ipp.rB.length := by
+  unfold verificationScalars at h
+  simp only at h
+  split at h
+  · cases h
+  rename_i hlr
+  split at h
+  · cases h
+  split at h
+  · cases h
+  rename_i hn
+  split at h
+  · cases h
+  simp only [Option.some.injEq, Prod.mk.injEq] at h
+  obtain ⟨rfl, rfl, rfl, _⟩ := h
+  exact ⟨rfl, rfl, rfl, by simpa using hn, by simpa using hlr⟩
+
+
+/-- the challenge trace used by the correspondence (`Range.challengeTrace`) is defined exactly when the
+    verifier's challenges are, and lists the same `y z x w`, the legacy `c`, the inner-product challenges
+    `u_j` whose squares / inverse squares are the ones the verifier uses, and the same `d` -/
+theorem challengeTrace_spec (t : T) (nm : ℕ) (pf : Proof F G) :
+    (challengeTrace t nm pf).isSome = (challenges t nm pf).isSome ∧
+    ∀ c tr, challenges t nm pf = some c → challengeTrace t nm pf = some tr →
+      ∃ (cl : F) (us : List F),
+        tr = [("y", c.y), ("z", c.z), ("x", c.x), ("w", c.w), ("c", cl)] ++ us.map (fun u => ("u", u)) ++ [("d", c.d)] ∧
+        c.uSq = us.map (fun u => u * u) ∧ c.uInvSq = us.map (fun u => u⁻¹ * u⁻¹) := by
+  unfold challengeTrace challenges
+  simp only
+  split
+  · rename_i h; simp [h]
+  · rename_i uSq uInvSq s t' h
+    simp only [h, Option.isSome_some, true_and]
+    intro c tr hc htr
+    simp only [Option.some.injEq] at hc htr
+    subst hc htr
+    obtain ⟨e1, e2, -, -, -⟩ := verificationScalars_some _ _ _ _ _ _ _ h
+    exact ⟨_, _, rfl, e1, e2⟩
+
+end Zk.Props.C04
